@@ -459,6 +459,11 @@ def _value_line_tokenizer(func):
 def whitespace_split_tokenizer(v):
     # type: (str) -> Iterable[Deb822Token]
     assert "\n" not in v
+    if v and v.isspace():
+        # A line with only whitespace (e.g. the field line of "Field: \n value") has
+        # no word for the regex to match; it is one separator token
+        yield Deb822SpaceSeparatorToken(sys.intern(v))
+        return
     for match in _RE_WHITESPACE_SEPARATED_WORD_LIST.finditer(v):
         space_before, word, space_after = match.groups()
         if space_before:
